@@ -30,11 +30,13 @@ def do_import(name, wt, prop, needs):
   ran['tests_with_change'] = r.stdout.strip().splitlines()[-1] if r.stdout.strip() else r.stderr[-200:]
   r1 = sh([PY, os.path.basename(demo)], cwd=wt, env=env, timeout=300)
   ran['demo_with_change'] = 'exit %d: %s' % (r1.returncode, (r1.stdout + r1.stderr).strip()[-300:])
-  sh(['git', '-C', wt, 'stash'])
+  # (no `git stash`: the stash is shared by all worktrees of a repository)
+  pf = os.path.join(d, 'patch.diff')
+  assert sh(['git', '-C', wt, 'apply', '-R', pf]).returncode == 0
   try:
     r2 = sh([PY, os.path.basename(demo)], cwd=wt, env=env, timeout=300)
   finally:
-    sh(['git', '-C', wt, 'stash', 'pop'])
+    assert sh(['git', '-C', wt, 'apply', pf]).returncode == 0
   ran['demo_without_change'] = 'exit %d: %s' % (r2.returncode, (r2.stdout + r2.stderr).strip()[-200:])
   ok = 'passed' in ran['tests_with_change'] and 'failed' not in ran['tests_with_change'] and r1.returncode != 0 and r2.returncode == 0
   chk = sh(['git', '-C', '/repo', 'apply', '--check', os.path.join(d, 'patch.diff')])
